@@ -85,3 +85,45 @@ Proof. vm_compute. reflexivity. Qed.
 Lemma generated_de_role :
   forallb (fun f => env_conforms_role decl_de (gen_env f) (spec_env f)) all_feats = true.
 Proof. vm_compute. reflexivity. Qed.
+
+(* ---- Request::deserialize, generically in the tables (keeps the kernel away from unfolding the
+   concrete tables under binders) *)
+Lemma request_status_range (T : tables) (e : env) (data : bytes) (s a b c : Z) :
+  (forall ce, status_of_cerr T ce = b \/ status_of_cerr T ce = c) ->
+  status_invalid_command T = a ->
+  request_deserialize T e data = RErr s -> s = a \/ s = b \/ s = c.
+Proof.
+  intros Hce Hic H. destruct data as [|op body]; cbn [request_deserialize] in H.
+  - injection H as <-. destruct (Hce UnexpectedEnd) as [->| ->]; auto.
+  - unfold run_route in H. destruct (route_of T op); try discriminate.
+    + destruct (decode e t body) as [[x r]|ce| |]; try discriminate.
+      injection H as <-. destruct (Hce ce) as [->| ->]; auto.
+    + injection H as <-. auto.
+Qed.
+
+Lemma request_decode_step (T : tables) (e : env) (op : Z) (d : bytes) (v : string) (t : ty) :
+  route_of T op = RtDecode v t ->
+  request_deserialize T e (op :: d) =
+    match decode e t d with
+    | Ok (x, _) => ROk (ReqBody v x)
+    | Err ce => RErr (status_of_cerr T ce)
+    | Panic s => RPanic s
+    | Fuel => RFuel
+    end.
+Proof. intros H. cbn [request_deserialize]. rewrite H. reflexivity. Qed.
+
+Lemma request_invalid_step (T : tables) (e : env) (op : Z) (d : bytes) :
+  route_of T op = RtInvalid -> request_deserialize T e (op :: d) = RErr (status_invalid_command T).
+Proof. intros H. cbn [request_deserialize]. rewrite H. reflexivity. Qed.
+
+Lemma request_unit_step (T : tables) (e : env) (op : Z) (d : bytes) (v : string) :
+  route_of T op = RtUnit v -> request_deserialize T e (op :: d) = ROk (ReqUnit v).
+Proof. intros H. cbn [request_deserialize]. rewrite H. reflexivity. Qed.
+
+Lemma request_vendor_step (T : tables) (e : env) (op : Z) (d : bytes) (c : Z) :
+  route_of T op = RtVendor c -> request_deserialize T e (op :: d) = ROk (ReqVendor c).
+Proof. intros H. cbn [request_deserialize]. rewrite H. reflexivity. Qed.
+
+Lemma spec_status_of_cerr : forall e : cerr,
+  status_of_cerr spec_tables e = match e with SerdeMissingField => 0x14 | _ => 0x12 end.
+Proof. destruct e; vm_compute; reflexivity. Qed.
